@@ -120,6 +120,21 @@ def own_idset(ctx, r):
              f"{f['name']} decides from the storage buffer(s) {reads}: after a duplicate insert that arrived at a full buffer the live buffer is empty although the set is not, so the answer disagrees with the map-plus-vector model",
              sample=f"{f['name']}: answers from the index tables only")
     r.count("membership / id / size queries", nq, 4, IDSET)
+    # (3c) nor does any other method take the occupancy of a storage buffer for the state of the set (the live buffer is empty
+    #      after a duplicate that arrived at a full buffer, while the set is not): only the capacity test may look at it
+    for f in q.find_fns(items, impl_ty="IdSet"):
+        if f.get("body") is None:
+            continue
+        for x in q.walk(f["body"]):
+            if x["k"] != "If":
+                continue
+            occ = [y for y in q.walk(x["c"]) if y["k"] == "MethodCall" and y["m"] in ("is_empty", "len") and q.strip_refs(y["recv"])["k"] == "Field" and q.strip_refs(y["recv"])["f"] in buf_fields]
+            if not occ:
+                continue
+            capacity_test = "capacity" in q.show(x["c"]) or any(z["k"] == "Call" and q.show(z["f"]).endswith("mem::replace") for z in q.walk(x["t"]))
+            r.ob(capacity_test, f"id_set.rs:{f['name']}:decides-from-storage-buffer", IDSET, x["l"],
+                 f"{f['name']} branches on `{q.show(x['c'])}`: the occupancy of a storage buffer is not the state of the set - after `insert a; insert b; insert a` the live buffer is empty while the set holds two values, so e.g. a `clear()` that returns early leaves every value, id and pointer in place",
+                 sample=f"{f['name']}: buffer occupancy used for the capacity test only")
     # (4) nothing public exposes a pointer or a field
     for fl in st["fields"]:
         r.ob(fl["vis"] == "", f"id_set.rs:IdSet.{fl['name']}:public-field", IDSET, fl["l"], f"field {fl['name']} is `{fl['vis']}`: internal buffers/pointers must be private")
@@ -254,4 +269,13 @@ def arena_align(ctx, r):
             pads = [i for i, s_ in enumerate(stmts) if s_["k"] == "Local" and "padding" in q.pat_bindings(s_["pat"])]
             if pads and all(i > si for i in pads):
                 re_pad = True
+        # and recomputed for the position the value will really be written at: after the position was reset
+        POS = lay[0]
+        flat = list(q.walk(swaps[0]["t"]))
+        resets = [i_ for i_, x in enumerate(flat) if x["k"] == "Assign" and q.show(x["a"]).endswith("." + POS)]
+        repads = [i_ for i_, x in enumerate(flat) if x["k"] == "Assign" and q.show(x["a"]) == "padding"]
+        if resets and repads:
+            r.ob(min(repads) > max(resets), "arena.rs:alloc:padding-computed-before-position-reset", ARENA, swaps[0]["l"],
+                 "in the buffer-switch branch the padding is recomputed before the write position is reset to the start of the new buffer: it is the padding for `new buffer + old position`, while the value is placed at `new buffer + 0 + padding`, so a value that needs alignment lands misaligned whenever the old position was not a multiple of its alignment (u8, u8, u64 on a fresh arena)",
+                 sample="alloc: position reset, then padding recomputed")
         r.ob(re_pad or aligned_alloc, "arena.rs:alloc:padding-not-recomputed", ARENA, swaps[0]["l"], "after switching to a new buffer (a different base address) the padding must be recomputed", sample="alloc: padding recomputed for the new buffer")
